@@ -107,6 +107,8 @@ _SIMPLE = {
     "Src0": "FloatDataSource",
     "Mul": "FloatMultiplyOperation",
     "MulDef": "FloatMultiplyOperationWithDefault",
+    "MulKw": "VKwScale",
+    "MulKwReq": "VKwScaleReq",
     "Add": "FloatAddOperation",
     "Sq": "FloatSquareOperation",
     "Sum": "FloatCollectionSumOperation",
@@ -132,7 +134,7 @@ REF_CLASS = {
     "Mul": "FloatMultiplyOperation", "MulDef": "FloatMultiplyOperationWithDefault", "Add": "FloatAddOperation",
     "Sq": "FloatSquareOperation", "Sum": "FloatCollectionSumOperation", "Sink": "FloatDataSink",
     "CtxW": "VCtxWriteOperation", "CtxWBad": "VCtxBadWriteOperation", "Boom": "VBoomOperation",
-    "Abort": "VAbortOperation", "Probe": "FloatCollectValueProbe", "CtxWP": "VCtxScaleWrite", "IncIP": "VInPlaceIncrement",
+    "Abort": "VAbortOperation", "MulKw": "VKwScale", "MulKwReq": "VKwScaleReq", "Probe": "FloatCollectValueProbe", "CtxWP": "VCtxScaleWrite", "IncIP": "VInPlaceIncrement",
 }
 
 
@@ -162,6 +164,15 @@ def g_node(node: Dict[str, Any]) -> Dict[str, Any]:
         out = {"processor": f"delete:{k1}"}
     elif kind == "CtxBind":
         out = {"processor": "VCtxBump", "parameters": {"context_key": k2}}
+        if cfg:
+            out["parameters"].update(cfg)
+        return out
+    elif kind == "FitM":
+        # variable-mapped model fitting: x from t_values, y from a, result under k2 ("" = the default output key)
+        out = {"processor": "ModelFittingContextProcessor",
+               "parameters": {"fitting_model": "model:VSumModel", "independent_var_key": "t_values", "dependent_var_key": "a"}}
+        if k2:
+            out["parameters"]["context_key"] = k2
         if cfg:
             out["parameters"].update(cfg)
         return out
